@@ -310,7 +310,7 @@ type FailCase struct {
 func genFail(t *rapid.T) FailCase {
 	good := []string{"a: {b: 1}\n", "a: {b: 2}\nc: 3\n", "a: {b: 1}\n---\na: {b: 5}\n", "- 1\n- 2\n"}
 	pick := func() string { return rapid.SampledFrom(good).Draw(t, "good") }
-	c := FailCase{Kind: rapid.SampledFrom([]string{"parse", "eval_doc_k", "decode_doc_k", "missing_file", "encode", "bad_flag_value", "eval_error_fn", "decode_op_doc_k"}).Draw(t, "kind")}
+	c := FailCase{Kind: rapid.SampledFrom([]string{"parse", "eval_doc_k", "decode_doc_k", "missing_file", "encode", "bad_flag_value", "eval_error_fn", "decode_op_doc_k", "decode_format"}).Draw(t, "kind")}
 	out := rapid.SampledFrom([]string{"", "-o=json", "-o=yaml", "-o=props", "-N", "-r"}).Draw(t, "flag")
 	mode := rapid.SampledFrom([]string{"", "ea"}).Draw(t, "mode")
 	if mode != "" {
@@ -387,6 +387,18 @@ func genFail(t *rapid.T) FailCase {
 		} else {
 			c.Files = []string{strings.Join(docs, "---\n")}
 		}
+	case "decode_format":
+		// texts the other input formats cannot place or finish reading
+		bad := rapid.SampledFrom([][2]string{{"props", "a.0 = x\na.k = y\n"}, {"props", "a.0 = x\n# note\na.k = y\n"}, {"props", "z = 1\n# c1\n# c2\nz.0.k = 2\nz.k = 3\n"}, {"props", "z = 1\nz.k = 3\n"}, {"props", "y = 0\nz.k = 3\nz = 1\n"}, {"props", "a.b.c = 1\na.b = 2\n"},
+			{"xml", "<a><b>1</b>"}, {"xml", "<a><b>1</b><c>"}, {"xml", "<a>text"}, {"json", "{\"a\": 1"}, {"json", "[1, 2"}, {"toml", "a = = 1\n"}, {"toml", "[t\nk = 1\n"},
+			{"lua", "return {a = "}, {"csv", "a,b\n\"x\n"}, {"base64", "!!!"}}).Draw(t, "badfmt")
+		for i, a := range c.Args {
+			if strings.HasPrefix(a, "-o=") || a == "-N" || a == "-r" {
+				c.Args[i] = "-o=json"
+			}
+		}
+		c.Args = append(c.Args, "-p="+bad[0], "-o=json", "--expression", ".")
+		c.Files = []string{bad[1]}
 	case "missing_file":
 		c.Args = append(c.Args, "--expression", ".")
 		c.Files = []string{pick()}
